@@ -177,8 +177,8 @@ def build(read):
         "r == Err::<(), Error>(Error::AtLoc{source: Box::new(source), line: name_loc.0, col: name_loc.1})",
         "bind_next_name")
     b.edits.append("annotation: closure `new_loc_error` given parameter type, named result and its literal postcondition")
-    f_next = extract.annotate_fn(f_next, spec=SPEC_NEXT)
-    f_name = extract.annotate_fn(f_name, spec=SPEC_NAME)
+    f_next = extract.annotate_fn(f_next, spec=SPEC_NEXT, attrs="#[verifier::exec_allows_no_decreases_clause]\n")
+    f_name = extract.annotate_fn(f_name, spec=SPEC_NAME, attrs="#[verifier::exec_allows_no_decreases_clause]\n")
     new_val = extract.annotate_fn(new_val, spec="\n    ensures r == (SourcedValue{v, source: None}),\n")
     b.edits.append("D3: std HashSet<String> replaced by an assumed mathematical-set contract (new/contains/insert)")
 
